@@ -15,6 +15,8 @@ OPEN_TYPE_oer_get(const asn_codec_ctx_t *opt_codec_ctx,
     void *memb_ptr;   /* Pointer to the member */
     void **memb_ptr2; /* Pointer to that pointer */
     void *inner_value;
+    void **inner_value_p;   /* Where the decoder finds or puts the value */
+    const asn_TYPE_member_t *variant;
     asn_dec_rval_t rv;
     size_t ot_ret;
 
@@ -48,12 +50,18 @@ OPEN_TYPE_oer_get(const asn_codec_ctx_t *opt_codec_ctx,
         }
     }
 
-    inner_value =
-        (char *)*memb_ptr2
-        + elm->type->elements[selected.presence_index - 1].memb_offset;
+    variant = &elm->type->elements[selected.presence_index - 1];
+    if(variant->flags & ATF_POINTER) {
+        /* The variant is held by pointer (a type which refers to itself) */
+        inner_value_p = (void **)((char *)*memb_ptr2 + variant->memb_offset);
+        inner_value = NULL;
+    } else {
+        inner_value = (char *)*memb_ptr2 + variant->memb_offset;
+        inner_value_p = &inner_value;
+    }
 
     ot_ret = oer_open_type_get(opt_codec_ctx, selected.type_descriptor, NULL,
-                               &inner_value, ptr, size);
+                               inner_value_p, ptr, size);
     switch(ot_ret) {
     default:
         if(CHOICE_variant_set_presence(elm->type, *memb_ptr2,
@@ -82,6 +90,9 @@ OPEN_TYPE_oer_get(const asn_codec_ctx_t *opt_codec_ctx,
         if(elm->flags & ATF_POINTER) {
             ASN_STRUCT_FREE(*selected.type_descriptor, inner_value);
             *memb_ptr2 = NULL;
+        } else if(variant->flags & ATF_POINTER) {
+            ASN_STRUCT_FREE(*selected.type_descriptor, *inner_value_p);
+            memset(*memb_ptr2, 0, specs->struct_size);
         } else {
             ASN_STRUCT_FREE_CONTENTS_ONLY(*selected.type_descriptor,
                                           inner_value);
